@@ -28,6 +28,8 @@ PLANS['C19'] = [('pp', W(40000, 2000000, batch=500))]
 PLANS['C02'].append(('pp', W(10000, 400000, batch=500)))
 PLANS['C06'].append(('pp', W(10000, 400000, batch=500)))
 PLANS['C20'] = [('crt', W(40000, 2000000, batch=500))]
+for _p in ('C01', 'C02', 'C05', 'C06'):
+    PLANS[_p].append(('legacy', W(8000, 400000, batch=500)))
 PLANS['C17'] = [('coord', W(80000, 5000000, batch=1000))]
 
 
